@@ -137,6 +137,14 @@ func buildImage(ref, class string, variant int) *PkgImage {
 	case "weird-annotations":
 		img.Files["manifest.yaml"] = []byte(manifestYAML(img.Name, false, "", false))
 		img.Files["a.yaml"] = []byte("apiVersion: v1\nkind: ConfigMap\nmetadata:\n  name: weird\n  namespace: ns1\n  annotations:\n    package-operator.run/phase: alpha\n    package-operator.run/condition-map: \"=>\\n => x\\nA => \"\n    package-operator.run/collision-protection: Bogus\n    package-operator.run/condition: \"1 +\"\n")
+	case "cel-nonbool":
+		// CEL conditions whose value is only known at run time and is not a bool (string, number, map, null)
+		img.Files["manifest.yaml"] = []byte(manifestYAML(img.Name, false, "", false))
+		expr := []string{"config.color", "config", "environment.kubernetes.version", "has(config.color) ? config.color : 0", "images"}[variant%5]
+		img.Files["a.yaml"] = []byte("apiVersion: v1\nkind: ConfigMap\nmetadata:\n  name: celcm\n  namespace: ns1\n  annotations:\n    package-operator.run/phase: alpha\n    package-operator.run/condition: \"" + expr + "\"\n")
+	case "cel-filter":
+		img.Files["manifest.yaml"] = []byte(strings.Replace(manifestYAML(img.Name, false, "", false), "  scopes:", "  filters:\n    conditions:\n    - name: c1\n      expression: \"config.color\"\n    paths:\n    - glob: \"a*\"\n      expression: \"config\"\n  scopes:", 1))
+		img.Files["a.yaml"] = []byte("apiVersion: v1\nkind: ConfigMap\nmetadata:\n  name: celcm\n  namespace: ns1\n  annotations:\n    package-operator.run/phase: alpha\n    package-operator.run/condition: \"cond.c1\"\n")
 	case "deep-template":
 		img.Files["manifest.yaml"] = []byte(manifestYAML(img.Name, false, "", false))
 		img.Files["a.yaml.gotmpl"] = []byte("{{ define \"r\" }}{{ template \"r\" . }}{{ end }}apiVersion: v1\nkind: ConfigMap\nmetadata:\n  name: deep\n  namespace: ns1\n  annotations:\n    package-operator.run/phase: alpha\ndata:\n  k: \"{{ template \"r\" . }}\"\n")
@@ -155,6 +163,12 @@ func buildImage(ref, class string, variant int) *PkgImage {
 	case "bad-object":
 		img.Files["manifest.yaml"] = []byte(manifestYAML(img.Name, false, "", false))
 		img.Files["cm.yaml"] = []byte(cmYAML("bad-cm", "no-such-phase", "x", 0))
+	case "dup-version":
+		// the same object twice, under two API versions of its kind
+		img.Files["manifest.yaml"] = []byte(manifestYAML(img.Name, false, "", false))
+		img.Files["cm.yaml.gotmpl"] = []byte(cmYAML(pn+"-cm", "alpha", "x", 0))
+		img.Files["dep.yaml.gotmpl"] = []byte(depYAML(pn+"-dep", "bravo"))
+		img.Files["dep-old.yaml.gotmpl"] = []byte(strings.Replace(depYAML(pn+"-dep", "bravo"), "apps/v1", "apps/v1beta1", 1))
 	case "pull-fails":
 	}
 	return img
@@ -166,13 +180,13 @@ func (img *PkgImage) Admissible(spec map[string]any, scopeCluster bool, others i
 	switch img.Class {
 	case "pull-fails":
 		return false, "pull"
-	case "bad-condition-map", "torn", "torn-late", "corrupt-header", "empty-image", "garbage-yaml", "no-kind", "weird-annotations", "deep-template", "manifest-list", "non-string-annotation":
+	case "bad-condition-map", "torn", "torn-late", "corrupt-header", "empty-image", "garbage-yaml", "no-kind", "weird-annotations", "deep-template", "manifest-list", "non-string-annotation", "cel-nonbool", "cel-filter":
 		return false, "hostile"
 	case "no-manifest", "garbled-manifest":
 		return false, "load"
 	case "bad-manifest":
 		return false, "validation"
-	case "bad-object":
+	case "bad-object", "dup-version":
 		return false, "object-validation"
 	case "constraint-openshift", "constraint-version", "constraint-mixed":
 		return false, "constraint"
@@ -262,9 +276,9 @@ type PKGGen struct {
 	OpenShift bool
 }
 
-var hostileClasses = []string{"bad-condition-map", "torn", "torn-late", "corrupt-header", "empty-image", "garbage-yaml", "no-kind", "weird-annotations", "deep-template", "manifest-list", "non-string-annotation"}
+var hostileClasses = []string{"bad-condition-map", "torn", "torn-late", "corrupt-header", "empty-image", "garbage-yaml", "no-kind", "weird-annotations", "deep-template", "manifest-list", "non-string-annotation", "cel-nonbool", "cel-nonbool", "cel-filter"}
 
-var imageClasses = []string{"valid", "valid", "needs-config", "multi", "no-manifest", "garbled-manifest", "bad-manifest", "bad-object", "constraint-openshift", "constraint-version", "constraint-mixed", "constraint-met", "pull-fails", "big"}
+var imageClasses = []string{"valid", "valid", "needs-config", "multi", "no-manifest", "garbled-manifest", "bad-manifest", "bad-object", "dup-version", "constraint-openshift", "constraint-version", "constraint-mixed", "constraint-met", "pull-fails", "big"}
 
 // GenPKG generates (Cluster)Packages, the images behind them and spec edits.
 func GenPKG(w *World, maxEdits int, opts ...string) *Scenario {
@@ -310,7 +324,7 @@ func GenPKG(w *World, maxEdits int, opts ...string) *Scenario {
 		if i == 0 {
 			class = "valid"
 		}
-		if noErrorLoops && (class == "bad-manifest" || class == "bad-object") {
+		if noErrorLoops && (class == "bad-manifest" || class == "bad-object" || class == "dup-version") {
 			// these fail on every pass without ever persisting status: transient faults
 			// leave residue in conditions that says nothing about convergence
 			class = "no-manifest"
